@@ -109,7 +109,8 @@ def remove_ignores(top, ignores):
 # scanning the real tree into the model's inputs
 
 class Scan:
-    """The model's view of the real file system: a tree rooted at '/', the loaded ignore specs and the oracle table."""
+    """The model's view of the real file system: the directories from '/' down (preorder, with parent index), the loaded ignore specs and
+    the oracle table."""
 
     def __init__(self, top):
         from sqlfluff.core.config.file import load_config_file_as_dict
@@ -119,15 +120,17 @@ class Scan:
         self.records = []       # (abs dir, filename, PathSpec)
         self.candidates = []    # abs paths of every file and every "dir/*" below top
         self.top = top
-        node = self._scan(top, True)
+        self.dirs = []          # (abs path, parent index, name, files, loads)
         # the chain of ancestors of top: only their ignore files matter (iter_intermediate_paths may visit them)
+        chain = []
         cur = top
         while cur != "/":
-            parent, name = os.path.split(cur)
-            files = [n for n in self.loaders if os.path.isfile(os.path.join(parent, n))]
-            node = {"files": files, "loads": self._loads(parent, files), "subs": [(name, node)]}
-            cur = parent
-        self.root = node
+            cur = os.path.dirname(cur)
+            chain.append(cur)
+        for anc in reversed(chain):
+            files = [n for n in self.loaders if os.path.isfile(os.path.join(anc, n))]
+            self.dirs.append((anc, max(0, len(self.dirs) - 1), os.path.basename(anc), files, self._loads(anc, files)))
+        self._scan(top, len(self.dirs) - 1, True)
         self.table = []
         self.nmatch = 0
         for sid, (d, _f, spec) in enumerate(self.records):
@@ -150,7 +153,7 @@ class Scan:
                     loads.append((f, None))
         return loads
 
-    def _scan(self, path, is_top=False):
+    def _scan(self, path, parent, is_top=False):
         files, subs = [], []
         with os.scandir(path) as it:
             for e in it:
@@ -159,8 +162,10 @@ class Scan:
             self.candidates.append(os.path.join(path, f))
         if not is_top:
             self.candidates.append(os.path.join(path, "*"))
-        loads = self._loads(path, files)
-        return {"files": files, "loads": loads, "subs": [(n, self._scan(os.path.join(path, n))) for n in subs]}
+        idx = len(self.dirs)
+        self.dirs.append((path, parent, os.path.basename(path), files, self._loads(path, files)))
+        for n in subs:
+            self._scan(os.path.join(path, n), idx)
 
     def add_candidate(self, abspath):
         """an exact path outside the scanned candidates (check_non_existent_file)"""
@@ -173,65 +178,101 @@ class Scan:
                 self.table.append((sid, rel.split("/")))
 
 
+# Shipping cases to Coq.  Coq's front end reads ~20 KB/s, so the volume matters.  Cases are grouped: a GROUP is one tree on disk (without its
+# ignore files) and one list of calls; it is written once (skeleton, calls, and per call the sorted universe of file names any case of the group
+# returned).  A CASE of the group is then only: the ignore files present (directory index, name, loader result), the oracle table (per spec the
+# indices of the matching relative paths) and per call a bit mask over the call's universe (or None when SQLFluffUserError was raised).
+
 class Intern:
-    """strings -> small numbers; the table is shipped to Coq once per coqc run as one decoded string literal"""
+    def __init__(self, prefix):
+        self.ids, self.prefix = {}, prefix
 
-    def __init__(self):
-        self.ids = {}
-
-    def n(self, s):
+    def t(self, s):
         if s not in self.ids:
-            self.ids[s] = len(self.ids)
+            self.ids[s] = "%s%d" % (self.prefix, len(self.ids))
         return self.ids[s]
 
-    def ns(self, l):
-        return ",".join(str(self.n(x)) for x in l)
+    def tl(self, l):
+        return "[" + "; ".join(self.t(x) for x in l) + "]" if l else "(@nil text)"
 
-    def names_defs(self):
-        """Coq definitions of the string table, as several short string literals (Coq reads long string literals in quadratic time)"""
-        chunks, cur = [], []
-        for s in self.ids:
-            cur.append(",".join(str(ord(c)) for c in s))
-            if sum(len(x) + 1 for x in cur) > 1200:
-                chunks.append(cur)
-                cur = []
-        if cur:
-            chunks.append(cur)
-        out = "".join('Definition c25_n%d := "%s"%%string.\n' % (i, "|".join(ch)) for i, ch in enumerate(chunks))
-        return out + "Definition c25_names : list text := flat_map (fun s => map (fun e => hd [] e) (decode s)) [%s].\n" % "; ".join(
-            "c25_n%d" % i for i in range(len(chunks)))
-
-
-# Cases travel as Base/Decode.v strings (Coq reads a string literal in linear time, a nested list/tuple literal far slower):
-#   "<ndirs>" | one entry per directory in preorder "parent,name;files;loader-file,spec+1 ..." | table rows "spec,parts.." joined by ';' |
-#   one entry per query "cwd,path,ine,ign,wp,cnef,has_expected;exts;expected"
-def case_string(scan, queries, it):
-    ents = []
-
-    def flat(node, parent, name):
-        idx = len(ents)
-        ents.append("%d,%d;%s;%s" % (parent, it.n(name), it.ns(node["files"]),
-                                     ",".join("%d,%d" % (it.n(f), 0 if sp is None else sp + 1) for f, sp in node["loads"])))
-        for n, sub in node["subs"]:
-            flat(sub, idx, n)
-
-    flat(scan.root, 0, "")
-    tbl = ";".join("%d,%s" % (sid, it.ns(parts)) for sid, parts in scan.table)
-    qs = ["%d,%d,%d,%d,%d,%d,%d;%s;%s" % (it.n(q["abs_cwd"]), it.n(q["path"]), q["ine"], q["ign"], it.n(q["abs_wp"]), q["cnef"], q["real"] is not None,
-                                          it.ns(q["exts"]), it.ns(q["real"] or [])) for q in queries]
-    ents = [str(len(ents))] + ents + [tbl] + qs
-    chunks, cur = [], []
-    for e in ents:
-        cur.append(e)
-        if sum(len(x) + 1 for x in cur) > 1200:
-            chunks.append("|".join(cur))
-            cur = []
-    if cur:
-        chunks.append("|".join(cur))
-    return chunks
+    def defs(self):
+        """long absolute paths share the temp-dir prefix: define it once (Coq reads long literals slowly)"""
+        absn = [k for k in self.ids if k.startswith("/") and len(k) > 12]
+        pre = os.path.commonprefix(absn) if len(absn) > 3 else ""
+        use = len(pre) > 8
+        out = "Definition %s_pre : text := %s.\n" % (self.prefix, coq.ctext(pre)) if use else ""
+        for k, v in self.ids.items():
+            if use and k.startswith(pre):
+                out += "Definition %s : text := %s_pre ++ %s.\n" % (v, self.prefix, coq.ctext(k[len(pre):]))
+            else:
+                out += "Definition %s : text := %s.\n" % (v, coq.ctext(k))
+        return out
 
 
-COQ_IMPORTS = ["From Coq Require Import String.", "From Coq Require Import List.", "Base.Decode", "Model.Discovery"]
+def qstatic(q):
+    return (q["abs_cwd"], q["path"], q["ine"], q["ign"], q["abs_wp"], tuple(q["exts"]), q["cnef"])
+
+
+class Group:
+    def __init__(self, scan, queries):
+        self.skel = [(parent, name, tuple(sorted(f for f in files if f not in scan.loaders))) for (_p, parent, name, files, _l) in scan.dirs]
+        self.statics = [qstatic(q) for q in queries]
+        self.key = (tuple(self.skel), tuple(self.statics))
+        self.cases = []     # (ignore entries, {spec: [rel parts tuple]}, [real result or None per query], meta)
+        self.rels = {}      # relative path (tuple of parts) -> index
+
+    def add(self, scan, queries, meta):
+        igs = [(di, f, sp) for di, (_p, _pa, _n, _files, loads) in enumerate(scan.dirs) for f, sp in loads]
+        tbl = {}
+        for sid, parts in scan.table:
+            tbl.setdefault(sid, []).append(self.rels.setdefault(tuple(parts), len(self.rels)))
+        self.cases.append((igs, tbl, [q["real"] for q in queries], meta))
+
+    def coq(self, gi):
+        """(definitions, [terms], n_cases): each term evaluates to a list (one per case) of lists of booleans (one per call)"""
+        it = Intern("g%dt" % gi)
+        universes = []
+        for qi in range(len(self.statics)):
+            u = set()
+            for _i, _t, reals, _m in self.cases:
+                if reals[qi] is not None:
+                    if sorted(set(reals[qi])) != reals[qi]:
+                        raise ValueError("result not sorted/duplicate free: %r" % (reals[qi],))
+                    u.update(reals[qi])
+            universes.append(sorted(u))
+        skel = "[" + "; ".join("(%d, %s, %s)" % (pa, it.t(n), it.tl(fs)) for pa, n, fs in self.skel) + "]"
+        qs = "[" + ";\n ".join("(%s, %s, %s, %s, %s, %s, %s, %s)" % (it.t(c), it.t(p), coq.cbool(ine), coq.cbool(ign), it.t(wp), it.tl(ex), coq.cbool(cn),
+                                                                     it.tl(u)) for (c, p, ine, ign, wp, ex, cn), u in zip(self.statics, universes)) + "]"
+        rels = sorted(self.rels, key=self.rels.get)
+        lits = []
+        for igs, tbl, reals, _m in self.cases:
+            ig = "[" + "; ".join("(%d, %s, %s)" % (di, it.t(f), "None" if sp is None else "Some %d" % sp) for di, f, sp in igs) + "]" \
+                if igs else "(@nil (nat * text * option nat))"
+            tb = "[" + "; ".join("(%d, [%s])" % (sid, "; ".join(map(str, ix))) for sid, ix in sorted(tbl.items())) + "]" \
+                if tbl else "(@nil (nat * list nat))"
+            ms = []
+            for real, u in zip(reals, universes):
+                if real is None:
+                    ms.append("None")
+                else:
+                    have = set(real)
+                    ms.append("Some %d%%N" % sum(1 << i for i, x in enumerate(u) if x in have))
+            lits.append("(%s, %s, [%s])" % (ig, tb, "; ".join(ms)))
+        defs = ""
+        defs += "Definition g%d_skel : list (nat * text * list text) := %s.\n" % (gi, skel)
+        defs += "Definition g%d_qs : list c25_qs :=\n %s.\n" % (gi, qs)
+        # the relative paths of the oracle table, in chunks (long list literals parse slowly)
+        chunks = list(coq.chunked(rels, 200)) or [[]]
+        for k, ch in enumerate(chunks):
+            defs += "Definition g%d_rels%d : list (list text) := %s.\n" % (
+                gi, k, "[" + "; ".join(it.tl(list(r)) for r in ch) + "]" if ch else "(@nil (list text))")
+        defs += "Definition g%d_rels := %s.\n" % (gi, " ++ ".join("g%d_rels%d" % (gi, k) for k in range(len(chunks))))
+        defs = it.defs() + defs   # the definitions of the texts precede their uses
+        terms = ["map (c25_fcase g%d_skel g%d_rels g%d_qs) %s" % (gi, gi, gi, coq.clist(ch)) for ch in coq.chunked(lits, 200)]
+        return it, defs, terms
+
+
+COQ_IMPORTS = ["Model.Discovery"]
 COQ_DEFS = """
 Definition c25_ok (r : res (list (list text * text))) (cwd : text) (e : option (list text)) : bool :=
   match r, e with
@@ -239,56 +280,46 @@ Definition c25_ok (r : res (list (list text * text))) (cwd : text) (e : option (
   | Err EValue, None => true
   | _, _ => false
   end.
-Definition c25_q := (text * text * bool * bool * text * list text * bool * option (list text))%type.
-Definition c25_case (c : dir * list (nat * list text) * list c25_q) : list bool :=
-  let '(root, tbl, qs) := c in
-  map (fun q : c25_q => let '(cwd, path, ine, ign, wp, exts, cnef, e) := q in
-                        c25_ok (paths_from_path_g (tbl_matches tbl) cwd root path ine ign wp exts cnef) cwd e) qs.
-Definition c25_show (c : dir * list (nat * list text) * list c25_q) : list (res (list text)) :=
-  let '(root, tbl, qs) := c in
-  map (fun q : c25_q => let '(cwd, path, ine, ign, wp, exts, cnef, e) := q in
-                        paths_from_path (tbl_matches tbl) cwd root path ine ign wp exts cnef) qs.
-@@NAMES@@
-Definition tx (i : N) : text := nth (N.to_nat i) c25_names [].
-Fixpoint c25_pairs (l : list N) : list (N * N) := match l with a :: b :: r => (a, b) :: c25_pairs r | _ => [] end.
-Fixpoint c25_build (ents : list (list (list N))) (fuel i : nat) : dir :=
+(* cwd, path, ignore_non_existent_files, ignore_files, working_path, target_file_exts, check_non_existent_file, universe of results *)
+Definition c25_qs := (text * text * bool * bool * text * list text * bool * list text)%type.
+Fixpoint c25_select (m : N) (u : list text) : list text :=
+  match u with [] => [] | x :: r => if N.odd m then x :: c25_select (N.div2 m) r else c25_select (N.div2 m) r end.
+Fixpoint c25_build (skel : list (nat * text * list text)) (igs : list (nat * text * option nat)) (fuel i : nat) : dir :=
   match fuel with
   | O => Dir [] [] []
   | S f =>
-      match nth i ents [] with
-      | _ :: files :: loads :: _ =>
-          Dir (map tx files)
-              (map (fun ab => (tx (fst ab), if N.eqb (snd ab) 0 then None else Some (N.to_nat (snd ab - 1)))) (c25_pairs loads))
-              (flat_map (fun j => match nth j ents [] with
-                                  | (p :: nm :: _) :: _ =>
-                                      if Nat.eqb (N.to_nat p) i && negb (Nat.eqb j 0) then [(tx nm, c25_build ents f j)] else []
-                                  | _ => []
-                                  end) (seq 0 (length ents)))
-      | _ => Dir [] [] []
+      match nth_error skel i with
+      | Some (_, _, files) =>
+          let mine := filter (fun g => Nat.eqb (fst (fst g)) i) igs in
+          Dir (files ++ map (fun g => snd (fst g)) mine) (map (fun g => (snd (fst g), snd g)) mine)
+              (flat_map (fun j => match nth_error skel j with
+                                  | Some (p, nm, _) => if Nat.eqb p i && negb (Nat.eqb j 0) then [(nm, c25_build skel igs f j)] else []
+                                  | None => []
+                                  end) (seq 0 (length skel)))
+      | None => Dir [] [] []
       end
   end.
-Definition c25_decode_q (e : list (list N)) : c25_q :=
-  match e with
-  | [cwd; path; ine; ign; wp; cnef; hasexp] :: exts :: expd :: _ =>
-      (tx cwd, tx path, negb (N.eqb ine 0), negb (N.eqb ign 0), tx wp, map tx exts, negb (N.eqb cnef 0),
-       if N.eqb hasexp 0 then None else Some (map tx expd))
-  | _ => ([], [], false, false, [], [], false, Some [[0%N]])
-  end.
-Definition c25_decode (ss : list String.string) : dir * list (nat * list text) * list c25_q :=
-  match flat_map decode ss with
-  | ([nd] :: _) :: rest =>
-      let n := N.to_nat nd in
-      match skipn n rest with
-      | tbl :: qs => (c25_build (firstn n rest) n 0,
-                      flat_map (fun row => match row with sp :: parts => [(N.to_nat sp, map tx parts)] | [] => [] end) tbl,
-                      map c25_decode_q qs)
-      | [] => (Dir [] [] [], [], [])
-      end
-  | _ => (Dir [] [] [], [], [])
-  end.
-Definition c25_run (ss : list String.string) : list bool := c25_case (c25_decode ss).
-Definition c25_run_show (ss : list String.string) := c25_show (c25_decode ss).
-Open Scope string_scope.
+Definition c25_table (rels : list (list text)) (tb : list (nat * list nat)) : list (nat * list text) :=
+  flat_map (fun e => map (fun k => (fst e, nth k rels [[0%N]])) (snd e)) tb.
+Fixpoint c25_zip {A B} (a : list A) (b : list B) : list (A * B) :=
+  match a, b with x :: a', y :: b' => (x, y) :: c25_zip a' b' | _, _ => [] end.
+Definition c25_fcase (skel : list (nat * text * list text)) (rels : list (list text)) (qs : list c25_qs)
+           (c : list (nat * text * option nat) * list (nat * list nat) * list (option N)) : list bool :=
+  let '(igs, tb, masks) := c in
+  let root := c25_build skel igs (length skel) 0 in
+  let tbl := c25_table rels tb in
+  if negb (Nat.eqb (length qs) (length masks)) then [] else
+  map (fun qm : c25_qs * option N =>
+         let '(cwd, path, ine, ign, wp, exts, cnef, u, m) := qm in
+         c25_ok (paths_from_path_g (tbl_matches tbl) cwd root path ine ign wp exts cnef) cwd
+                (match m with Some m => Some (c25_select m u) | None => None end)) (c25_zip qs masks).
+Definition c25_fshow (skel : list (nat * text * list text)) (rels : list (list text)) (qs : list c25_qs)
+           (c : list (nat * text * option nat) * list (nat * list nat) * list (option N)) : list (res (list text)) :=
+  let '(igs, tb, masks) := c in
+  let root := c25_build skel igs (length skel) 0 in
+  let tbl := c25_table rels tb in
+  map (fun q : c25_qs => let '(cwd, path, ine, ign, wp, exts, cnef, u) := q in
+                         paths_from_path (tbl_matches tbl) cwd root path ine ign wp exts cnef) qs.
 """
 
 
@@ -397,66 +428,91 @@ class Queue:
 
     def __init__(self, ctx, coq_ok):
         self.ctx, self.coq_ok = ctx, coq_ok
-        self.it = Intern()
-        self.lits, self.meta = [], []
+        self.groups, self.split = {}, {}
+        self.ncases = 0
         self.done = 0
-        self.canary = None
 
-    def add(self, lit, meta, scan):
-        if self.coq_ok:
-            self.lits.append(lit)
-            self.meta.append(meta)
-            q0 = meta["queries"][0]
-            if self.canary is None and q0["real"] is not None:
-                # a case again with a wrong expectation for its first query; the model comparison must say false
-                self.canary = case_string(scan, [dict(q0, real=list(q0["real"]) + ["canary.sql"])], self.it)
+    def add(self, scan, queries, meta):
+        if not self.coq_ok:
+            return
+        g = Group(scan, queries)
+        n = self.split.get(g.key, 0)
+        if (g.key, n) in self.groups and len(self.groups[(g.key, n)].cases) >= 48:   # keep the groups small enough to balance 4 coqc runs
+            n = self.split[g.key] = n + 1
+        g = self.groups.setdefault((g.key, n), g)
+        g.add(scan, queries, meta)
+        self.ncases += 1
 
     def flush(self, force=True):
         ctx = self.ctx
-        if not self.lits or (not force and len(self.lits) < 1500):
+        if not self.groups or (not force and self.ncases < 3000):
             return
         from concurrent.futures import ThreadPoolExecutor
-        lits, meta = self.lits, self.meta
-        self.lits, self.meta = [], []
-        canary, self.canary = self.canary, None
-        defs = COQ_DEFS.replace("@@NAMES@@", self.it.names_defs())
+        groups = list(self.groups.values())
+        self.groups, self.split, self.ncases = {}, {}, 0
+        # canary: the first case with a result, again, with one file too many expected; the model comparison must say false
+        canary = None
+        for g in groups:
+            for igs, tbl, reals, meta in g.cases:
+                for qi, real in enumerate(reals):
+                    if real is not None and canary is None:
+                        cg = Group.__new__(Group)
+                        cg.skel, cg.statics, cg.key, cg.rels = g.skel, [g.statics[qi]], None, g.rels
+                        cg.cases = [(igs, tbl, [sorted(real + ["canary.sql"])], meta)]
+                        canary = cg
+        # distribute the groups over 4 coqc runs of similar size
+        order = sorted(groups, key=lambda g: -len(g.cases) * len(g.statics))
+        bins = [[] for _ in range(4)]
+        load = [0] * 4
+        for g in order:
+            k = load.index(min(load))
+            bins[k].append(g)
+            load[k] += len(g.cases) * len(g.statics) + 200
+        if canary is not None:
+            bins[load.index(min(load))].append(canary)
         t0 = coq.now()
 
-        def one(cases, func="c25_run"):
-            # every case = a few short string definitions + the list of their names
-            d, terms = [], []
-            for ci, chunks in enumerate(cases):
-                for k, ch in enumerate(chunks):
-                    d.append('Definition c25_k%d_%d := "%s".\n' % (ci, k, ch))
-                terms.append("[" + "; ".join("c25_k%d_%d" % (ci, k) for k in range(len(chunks))) + "]")
-            return coq.eval_terms(COQ_IMPORTS, ["map %s %s" % (func, coq.clist(terms))], defs=defs + "".join(d))[0]
+        def one(gs):
+            defs, terms, owners = COQ_DEFS, [], []
+            for gi, g in enumerate(gs):
+                _it, d, ts = g.coq(gi)
+                defs += d
+                terms += ts
+                owners += [g] * len(ts)
+            vals = coq.eval_terms(COQ_IMPORTS, terms, defs=defs) if terms else []
+            per = {}
+            for g, v in zip(owners, vals):
+                per.setdefault(id(g), []).extend(v)
+            return [(g, per.get(id(g), [])) for g in gs]
 
-        allc = lits + ([canary] if canary else [])
-        shards = list(coq.chunked(allc, max(1, min(250, (len(allc) + 3) // 4))))
         with ThreadPoolExecutor(max_workers=4) as ex:
-            res = [r for part in ex.map(one, shards) for r in part]
+            results = [x for part in ex.map(one, [b for b in bins if b]) for x in part]
         ctx.coverage_extra["coq_eval_s"] = round(ctx.coverage_extra.get("coq_eval_s", 0) + coq.now() - t0, 1)
-        if len(res) != len(allc):
-            raise coq.CoqError("result length mismatch")
-        if canary:
-            if res[-1] != [False]:
-                ctx.broken_obligation("canary: the model comparison accepted a wrong expectation", repr(canary)[:2000])
-            res = res[:-1]
-        for lit, bools, m in zip(lits, res, meta):
-            queries = m["queries"]
-            if len(bools) != len(queries):
+        for g, res in results:
+            if g is canary:
+                if res != [[False]]:
+                    ctx.broken_obligation("canary: the model comparison accepted a wrong expectation", repr(res))
+                continue
+            if len(res) != len(g.cases):
                 raise coq.CoqError("result length mismatch")
-            self.done += len(queries)
-            for qi, (b, q) in enumerate(zip(bools, queries)):
-                if b is not True:
-                    mo = one([lit], "c25_run_show")[0][qi]
-                    if isinstance(mo, tuple) and mo[0] == "Ok":
-                        mo = ["".join(chr(c) for c in t) for t in mo[1]]
-                    ctx.broken_obligation(
-                        "correspondence Model.Discovery.paths_from_path vs discovery.paths_from_path",
-                        json.dumps({"tree": m["desc"], "shape": m["shape"], "files": m["files"], "ignore_files": m["ignores"],
-                                    "query": {k: v for k, v in q.items() if k != "ids"}, "model": mo, "impl": q["real"]}, default=repr))
-                    return
+            for ci, (bools, (igs, tbl, reals, m)) in enumerate(zip(res, g.cases)):
+                if len(bools) != len(reals):
+                    raise coq.CoqError("result length mismatch (calls)")
+                self.done += len(reals)
+                for qi, b in enumerate(bools):
+                    if b is not True:
+                        sg = Group.__new__(Group)
+                        sg.skel, sg.statics, sg.key, sg.rels, sg.cases = g.skel, g.statics, None, g.rels, [g.cases[ci]]
+                        _it, d, ts = sg.coq(0)
+                        mo = coq.eval_terms(COQ_IMPORTS, [ts[0].replace("c25_fcase", "c25_fshow")], defs=COQ_DEFS + d)[0][0][qi]
+                        if isinstance(mo, tuple) and mo[0] == "Ok":
+                            mo = ["".join(chr(c) for c in t) for t in mo[1]]
+                        q = m["queries"][qi]
+                        ctx.broken_obligation(
+                            "correspondence Model.Discovery.paths_from_path vs discovery.paths_from_path",
+                            json.dumps({"tree": m["desc"], "shape": m["shape"], "files": m["files"], "ignore_files": m["ignores"],
+                                        "query": {k: v for k, v in q.items() if k != "ids"}, "model": mo, "impl": q["real"]}, default=repr))
+                        return
         ctx.coverage_extra["model_vs_impl_calls"] = self.done
 
 
@@ -473,7 +529,7 @@ class Runner:
         model evaluation, remove the ignore files"""
         from sqlfluff.core.errors import SQLFluffUserError
         from sqlfluff.core.linter import discovery
-        ctx, top, it = self.ctx, self.top, self.queue.it
+        ctx, top = self.ctx, self.top
         write_ignores(top, ignores)
         home = os.getcwd()
         try:
@@ -509,8 +565,7 @@ class Runner:
                     groups.setdefault((q["cwd"], q["wp"], q["target"], q["ine"], q["ign"], tuple(q["exts"]), q["cnef"]), []).append(q)
             os.chdir(home)
             self._oracles(desc, shape, ignores, files, groups, ignore_specs)
-            self.queue.add(case_string(scan, queries, it),
-                           {"desc": desc, "shape": shape, "ignores": ignores, "files": files, "queries": queries}, scan)
+            self.queue.add(scan, queries, {"desc": desc, "shape": shape, "ignores": ignores, "files": files, "queries": queries})
         finally:
             os.chdir(home)
             remove_ignores(top, ignores)
@@ -597,30 +652,27 @@ def ancestor_pairs(dirs):
     return [(a, b) for a in dirs for b in dirs if b.startswith(a + "/")]
 
 
+HAND_PATHS = ["a/./b/../c", "a//b", "/a/b/../../..", "../../a", "a/../..", "/..", "//..", "///a/./", "a/b/", "./a/", ".a", "a.", "..a", "a..", "...",
+              "a/.../b", "/a/./b/", "//a//b", "a/b/../../../c", "./.", "../.", "/./..", "aa/.a/a.", "/c/d/x", "/c/e/y", "/c", "/c/d/../e/z"]
+
+
 def helper_correspondence(ctx, coq_ok):
-    """loader names, and the posixpath/pathlib fragments of the model vs the real ones on every string over {/ . a} up to length 5 (6)"""
+    """loader names, and the posixpath/pathlib fragments of the model vs the real ones on every string over {/ . a} up to length 4 (6) and
+    hand-picked longer ones; the comparison is done in Coq (printing large terms is slow), only the verdicts come back"""
     import posixpath
     from pathlib import PurePosixPath
     from sqlfluff.core.linter import discovery
     if not coq_ok:
         return
     alphabet = ["/", ".", "a"]
-    strs = [""] + ["".join(t) for n in range(1, 6 if ctx.tier == "quick" else 7) for t in itertools.product(alphabet, repeat=n)]
+    strs = [""] + ["".join(t) for n in range(1, 5 if ctx.tier == "quick" else 7) for t in itertools.product(alphabet, repeat=n)] + HAND_PATHS
     cwd = "/c/d"
-    func = ("fun s => (normpath s, abspath %s s, join %s s, join s %s, relparts %s s %s, (isabs s, pure_parts s, resolve_parts (pure_parts s)))"
-            % (coq.ctext(cwd), coq.ctext("x/"), coq.ctext("y"), coq.ctext(cwd), coq.ctext("/c/e")))
-    terms = ["loader_names"] + ["map (%s) %s" % (func, coq.clist([coq.ctext(s) for s in ch])) for ch in coq.chunked(strs, 300)]
-    vals = coq.eval_terms(["Model.Discovery"], terms)
-    dec = lambda t: "".join(chr(c) for c in t)
-    if [dec(t) for t in vals[0]] != list(discovery.ignore_file_loaders.keys()):
-        ctx.broken_obligation("constant Model.Discovery.loader_names vs discovery.ignore_file_loaders", repr(list(discovery.ignore_file_loaders)))
-    res = [r for v in vals[1:] for r in v]
+    it = Intern("h")
     real_getcwd = os.getcwd
     os.getcwd = lambda: cwd   # posixpath.abspath/relpath read os.getcwd()
+    rows = []
     try:
-        for s, r in zip(strs, res):
-            model = (dec(r[0]), dec(r[1]), dec(r[2]), dec(r[3]), [dec(x) for x in r[4]] or ["."], r[5][0], [dec(x) for x in r[5][1]],
-                     [dec(x) for x in r[5][2]])
+        for s in strs:
             pp = PurePosixPath(s)
             parts = [p for p in pp.parts if p != pp.anchor]
             res_parts = []
@@ -629,15 +681,34 @@ def helper_correspondence(ctx, coq_ok):
                     res_parts = res_parts[:-1]
                 else:
                     res_parts.append(p)
-            real = (posixpath.normpath(s), posixpath.abspath(s), posixpath.join("x/", s), posixpath.join(s, "y"),
-                    posixpath.relpath(s, "/c/e").split("/") if s else model[4], posixpath.isabs(s), parts, res_parts)
+            rel = posixpath.relpath(s, "/c/e").split("/") if s else None
+            rows.append("(%s, %s, %s, %s, %s, %s, %s, %s, %s)" % (
+                it.t(s), it.t(posixpath.normpath(s)), it.t(posixpath.abspath(s)), it.t(posixpath.join("x/", s)), it.t(posixpath.join(s, "y")),
+                "None" if rel is None else "Some %s" % it.tl([] if rel == ["."] else rel), coq.cbool(posixpath.isabs(s)), it.tl(parts), it.tl(res_parts)))
             ctx.case(None, bucket="posixpath-helper")
-            if real != model:
-                ctx.broken_obligation("correspondence Model.Discovery posixpath fragment vs posixpath/pathlib",
-                                      json.dumps({"input": s, "model": model, "impl": real}))
-                break
     finally:
         os.getcwd = real_getcwd
+    body = """
+Definition c25_h (r : text * text * text * text * text * option (list text) * bool * list text * list text) : bool :=
+  let '(s, np, ap, j1, j2, rel, ia, pp, rp) := r in
+  text_eqb (normpath s) np && text_eqb (abspath %s s) ap && text_eqb (join %s s) j1 && text_eqb (join s %s) j2
+  && match rel with Some l => parts_eqb (relparts %s s %s) l | None => true end
+  && Bool.eqb (isabs s) ia && parts_eqb (pure_parts s) pp && parts_eqb (resolve_parts (pure_parts s)) rp.
+""" % (it.t(cwd), it.t("x/"), it.t("y"), it.t(cwd), it.t("/c/e"))
+    defs = it.defs() + body   # the texts are defined before their uses
+    terms = ["loader_names"] + ["map c25_h %s" % coq.clist(ch) for ch in coq.chunked(rows, 150)]
+    vals = coq.eval_terms(["Model.Discovery"], terms, defs=defs)
+    if ["".join(chr(c) for c in t) for t in vals[0]] != list(discovery.ignore_file_loaders.keys()):
+        ctx.broken_obligation("constant Model.Discovery.loader_names vs discovery.ignore_file_loaders", repr(list(discovery.ignore_file_loaders)))
+    verdicts = [b for v in vals[1:] for b in v]
+    if len(verdicts) != len(strs):
+        raise coq.CoqError("helper result length mismatch")
+    for sx, ok in zip(strs, verdicts):
+        # '//x' keeps its double slash in pathlib's anchor; such spellings are not generated (and Path('//x').parts differ only in the anchor)
+        if ok is not True:
+            ctx.broken_obligation("correspondence Model.Discovery posixpath fragment (normpath/abspath/join/relpath/isabs/pure_parts/resolve) "
+                                  "vs posixpath/pathlib", json.dumps({"input": sx}))
+            break
 
 
 def run(ctx, coq_ok):
